@@ -53,6 +53,11 @@ CHECKS = {
              "same symbolic parameters; the solver must confirm on all paths that either every order raises "
              "DeclarationError or every order succeeds with pair-wise equal schemas.",
         design="4/C11"),
+    "C09": dict(
+        text="Bounded symbolic execution of the real RegexGenerator per concrete pattern with every RNG outcome a solver "
+             "variable (branch, repeat count, range ordinal, class member): the solver must confirm on all paths that the "
+             "result fully matches the pattern and validates; for unsupported constructs that the generator raises.",
+        design="4/C09"),
     "C10": dict(
         text="Bounded symbolic execution of the real declaration methods, one harness per call chain: every argument "
              "is a symbolic scalar of any of five types or a solver-chosen member of a wrong-type menu. Solver must "
